@@ -520,5 +520,5 @@ pub fn generate(out: &mut Out, tier: &str, seed: u64) {
     }
 }
 
-pub const RULE: &str = "Exhaustive small scopes on a fixed base store (7-codepoint resource, empty resource, two data sets, a text annotation): each of the 13 simple selector forms (text in the four alignments, annotation, annotation with relative offset in the four alignments, resource, data set, key, data) x 0/1/2 data references x with/without public id; Multi/Composite/Directional over all ordered pairs (thorough: triples) of the 13 forms; internally compressed text and annotation ranges followed by every form; complex selectors without members; 16 awkward value texts (separators, quotes, line breaks, blanks, empty, look-alikes of other types). Then seeded random histories (storegen: <=6 resources of 0..8 codepoints of 1-4 bytes, <=4 datasets, all nine selector kinds incl. Multi/Composite/Directional with 1..4 mixed members and consecutive ranges that are stored compressed, begin- and end-aligned cursors, relative offsets, typed values incl. lists, references by id and handle, removals of every kind); two thirds of the histories give every annotation and data item a public id, one third leaves some without (known class). The final store is saved with save() as STAM CSV into a scratch directory, the annotation table is read back as text and compared with the model's rows, the store is loaded with from_file and compared with the original by content (ids, key/value text, data references, selector kind, referenced items by rank, absolute ranges) and by the text every annotation addresses. One evaluation = one of the four observations of a history; non-trivial = the history has a successful annotate; distinct = distinct histories.";
+pub const RULE: &str = "Exhaustive small scopes on a fixed base store (7-codepoint resource, empty resource, two data sets, a text annotation): each of the 13 simple selector forms (text in the four alignments, annotation, annotation with relative offset in the four alignments, resource, data set, key, data) x 0/1/2 data references x with/without public id; Multi/Composite/Directional over all ordered pairs (thorough: triples) of the 13 forms; internally compressed text and annotation ranges followed by every form; complex selectors without members; 16 awkward value texts (separators, quotes, line breaks, blanks, empty, look-alikes of other types). Then seeded random histories (storegen: <=6 resources of 0..8 codepoints of 1-4 bytes, <=4 datasets, all nine selector kinds incl. Multi/Composite/Directional with 1..4 mixed members and consecutive ranges that are stored compressed, begin- and end-aligned cursors, relative offsets, typed values incl. lists, references by id and handle, removals of every kind); two thirds of the histories give every annotation and data item a public id, one third leaves some without (known class Known_C15_tempid). The final store is saved with save() as STAM CSV into a scratch directory, the annotation table is read back as text and compared with the model's rows, the store is loaded with from_file and compared with the original by content (ids, key/value text, data references, selector kind, referenced items by rank, absolute ranges) and by the text every annotation addresses. One evaluation = one of the four observations of a history; non-trivial = the history has a successful annotate; distinct = distinct histories.";
 pub const EXHAUSTIVE: bool = false;
